@@ -76,7 +76,9 @@ def check_case(res, fr, arr, mode, layers, integrate, normalize, rescale, offset
             meds = []
             for v in be.vertices:
                 px, py = v.x * rescale[0] + offset[0], v.y * rescale[1] + offset[1]
-                win = [pixel(px + i, py + k) for i in range(-layers, layers + 1) for k in range(-layers, layers + 1)]
+                # the statement's window: the (2*layers+1)^2 block of whole pixels around the pixel the vertex falls into (the offsets are
+                # added to the pixel index, not to the float position: 61.99999999999999 + 3 would round to 65.0, see D28)
+                win = [pixel(int(px) + i, int(py) + k) for i in range(-layers, layers + 1) for k in range(-layers, layers + 1)]
                 meds.append(float(np.median(win)))
             raw.append(float(np.mean(meds)))
     exp = list(raw)
